@@ -39,12 +39,35 @@ out.append("")
 
 out.append("## 11. Seeded defects from independent sub-agents\n")
 out.append("Each seeded change was produced by a fresh sub-agent that saw only the property text and a scratch worktree, then confirmed here (`tools/evalseed.py`: builds, its demonstration fails with the change and passes without it, the existing suite passes with it) and run against the checks. Kept under `seeded/<id>/` (patch.diff, demo, README, meta.json).\n")
-out.append("| seed | property | confirmed | checks run → detected (seconds) |")
-out.append("|------|----------|-----------|-------------------------------|")
+out.append("A check that missed a confirmed change of its own property was strengthened (generator reach or oracle; never loosened) and run again with `tools/rerunseed.py`; such rows say *after strengthening* and the change to the check is described in `notes/Cxx.md` (\"Added by the coordinator\") and in section 12. A miss by a check of *another* property is left as it is (the change does not break that property, or only the other property's check is meant to see it).\n")
+out.append("| seed | property | confirmed | what it needs to manifest (from the sub-agent's README) | checks run → detected (seconds) |")
+out.append("|------|----------|-----------|-----------------------------|-------------------------------|")
+strengthened = []
+nseed = ndet = 0
 for f in sorted(glob.glob(os.path.join(ROOT, "seeded", "*", "meta.json"))):
     m = json.load(open(f))
-    ch = ", ".join("%s → %s (%ss)" % (k, "DETECTED" if v["detected"] else "missed", v["seconds"]) for k, v in m.get("checks", {}).items())
-    out.append("| %s | %s | %s | %s |" % (m["seed"], m["property"], "yes" if m.get("confirmed") else "no: " + (m.get("error") or m.get("note") or "see meta.json")[:60], ch))
-out.append("")
+    first = m.get("checks_first_evaluation", {})
+    parts = []
+    for k, v in m.get("checks", {}).items():
+        t = "%s → %s (%ss)" % (k, "DETECTED" if v["detected"] else "missed", v["seconds"])
+        if k in first and not first[k]["detected"] and v["detected"]:
+            t += " *after strengthening; first evaluation: missed*"
+            strengthened.append((m["seed"], k))
+        parts.append(t)
+    title = ""
+    try:
+        title = open(os.path.join(os.path.dirname(f), "README.md")).readline().strip("# \n")
+        title = re.sub(r"^Seeded defect\s*\S*\s*[/:]?\s*\d*\s*[—:-]*\s*", "", title)[:150].replace("|", "\\|")
+    except Exception:
+        pass
+    own = m.get("checks", {}).get(m["property"], {})
+    nseed += 1
+    ndet += 1 if any(v["detected"] for v in m.get("checks", {}).values()) else 0
+    out.append("| %s | %s | %s | %s | %s |" % (m["seed"], m["property"], "yes" if m.get("confirmed") else "no: " + (m.get("error") or m.get("note") or "see meta.json")[:60], title, ", ".join(parts)))
+out.append("\n%d seeded changes, %d detected by at least one check (%d of them only after the check was strengthened: %s).\n" % (nseed, ndet, len(set(s for s, _ in strengthened)), ", ".join(sorted(set(s for s, _ in strengthened)))))
+try:
+    out.append(open(os.path.join(ROOT, "notes", "strengthening.md")).read())
+except FileNotFoundError:
+    pass
 open(p, "w").write(s + "\n".join(out) + "\n")
 print("ok")
